@@ -437,3 +437,32 @@ pub fn long_map(idx: u64) -> RMap {
     }
     RMap { sources: vec!["a.js".into(), "b.js".into(), "c.js".into()], names: vec!["n".into(), "m".into()], tokens: toks, ..Default::default() }
 }
+
+// ---------------------------------------------------------------------------------
+// slice D: duplicate source / name strings at different indices, tokens that differ only in the index
+
+pub fn dup_tokens() -> Vec<RTok> {
+    let mut v = vec![];
+    for p in [(0u32, 0u32), (0, 5)] {
+        for s in 0..2u32 {
+            for n in [None, Some(0u32), Some(1)] {
+                v.push(RTok::new(p.0, p.1, Some((s, 0, 0, n))));
+            }
+        }
+    }
+    v
+}
+
+pub fn dup_count() -> u64 {
+    n_multisets_upto(12, 3)
+}
+
+pub fn dup_map(idx: u64) -> RMap {
+    let toks = dup_tokens();
+    RMap {
+        sources: vec!["same.js".into(), "same.js".into()],
+        names: vec!["same".into(), "same".into()],
+        tokens: multiset_upto_unrank(12, 3, idx).iter().map(|&i| toks[i].clone()).collect(),
+        ..Default::default()
+    }
+}
